@@ -67,6 +67,18 @@ CLAIMED['C04'] = dict(
     note=NOTE_COMMON + 'hash()-based argument sort of CSE is modelled as an arbitrary order.',
     technique='Lean 4 proof over translator-regenerated folding tables + netlist evaluation in the Lean Spec model')
 
+CLAIMED['C09'] = dict(
+    text='Lean theorems: the NAND and AND-inverter rewrite rules (regenerated from passes.py on every run) compute the '
+         'gate they replace for all inputs and cover every post-synthesis op; the chain of 2-operand concats equals the '
+         'n-operand concat at every width; concatenated single-bit selects equal any select (repeats/strides/reversals); '
+         'the fan-out tree of a wire of fan-out n has n leaves all carrying its value with binary branching; truncation '
+         'through a removed w net composes. Whole-pass behaviour, sanity_check, I/O preservation and each stated '
+         'postcondition are decided on the real result for every single pass and random sequences, by evaluating source '
+         'and result in the Lean Spec model.',
+    design='4 C09',
+    note=NOTE_COMMON + 'net_transform plumbing (wire replacement, temp naming) is exercised, not modelled.',
+    technique='Lean 4 proof (decide over Bool for gate rules; induction for concat/select/tree) + netlist evaluation in the Lean Spec model')
+
 NOT_YET = {}
 
 
